@@ -8,8 +8,8 @@ from spec import wowm
 from gen import containers
 
 FEATURES = ["sync", "vanilla", "tbc", "wrath"]
-SAMPLE_QUICK = 40
-QUICK_MAX_S = 45      # quick tier samples only contracts measured (container_costs.json) to verify within this time
+SAMPLE_QUICK = 24
+QUICK_MAX_S = 30      # quick tier samples only contracts measured (container_costs.json) to verify within this time
 ERR_ACCESSOR = """
 #[cfg(kani)]
 impl ParseError {
@@ -49,7 +49,7 @@ def load_costs():
     return json.load(open(p)) if os.path.exists(p) else {}
 
 
-def build(tier, seed, prop, only=None):
+def build(tier, seed, prop, only=None, with_primitives=True, sample=None):
     corpus = wowm.Corpus(vlib.REPO)
     items = containers.scan_messages(vlib.REPO)
     units = []
@@ -79,7 +79,7 @@ def build(tier, seed, prop, only=None):
         cheap_units.append(u)
     if only:
         cheap_units = [u for u in units if u["hname"] in only]
-    sel, n_changed = selection.pick(cheap_units, lambda u: [u["item"]["rel"], u["d"]["file"]], tier, seed, SAMPLE_QUICK, stratum=stratum)
+    sel, n_changed = selection.pick(cheap_units, lambda u: [u["item"]["rel"], u["d"]["file"]], tier, seed, sample or SAMPLE_QUICK, stratum=stratum)
     body = ["// generated each run by gen/containers.py from the wowm corpus\nuse super::spec_rt::*;\n"]
     specs = {}
     for u in sel:
@@ -93,9 +93,10 @@ def build(tier, seed, prop, only=None):
     body.append("#[kani::proof]\n#[kani::unwind(2)]\nfn ct_canary() {\n    let b: [u8; 4] = kani::any();\n    let w = W::new(&b, 4);\n    assert!(!w.ok, \"CANARY:containers\");\n}\n")
     specs["verif_kani::containers::ct_canary"] = dict(canary=True)
     mods = {"spec_rt": vlib.read(os.path.join(vlib.VERIF, "contracts/kani/spec_rt.rs")), "containers": "\n".join(body)}
-    pspecs, pmods = primitives_batch()
-    specs.update(pspecs)
-    mods.update(pmods)
+    if with_primitives:
+        pspecs, pmods = primitives_batch()
+        specs.update(pspecs)
+        mods.update(pmods)
     batch = vlib.Batch("wow_world_messages", FEATURES, mods, specs, jobs=8, harness_timeout=900, pre_inject=pre_inject)
     meta = dict(messages_in_tree=len(items), loop_free=sum(1 for u in units if not u["gen"].loops),
                 bounded_class=sum(1 for u in units if u["gen"].loops), checked_this_run=len(sel), changed_vs_baseline=n_changed,
@@ -115,6 +116,7 @@ PRIM_SPECS = {
     "prim_packed_guid_read_total_and_canonical_roundtrip": (["util::read_packed_guid", "util::write_packed_guid"], "complete", None),
     "prim_u16_u32_split_join": (["util::u16s_to_u32", "util::u32_to_u16s"], "complete", None),
     "prim_read_c_string_bounded": (["util::read_c_string_to_vec"], "bounded", "frame <= 6 bytes"),
+    "prim_assert_empty": (["util::assert_empty"], "complete", None),
 }
 
 
